@@ -120,5 +120,37 @@ def _hazard(tier):
     return cases(hazard=True)
 
 
-LEGS = [Leg('main', check=check, strategy=_main, examples={'quick': 8000, 'thorough': 200000}),
+@st.composite
+def long_region_cases(draw, tier):
+    """region bodies of boundary lengths (the lexer must keep a region opaque whatever its size)"""
+    n = draw(st.sampled_from([1000, 4096, 10000, 32768, 65530, 65536, 65540, 70000] + ([131073, 200000] if tier != 'quick' else []))) + draw(st.integers(-2, 2))
+    kind = draw(st.sampled_from(['sq', 'dq', 'bt', 'dollar', 'ml', 'sl']))
+    unit = draw(st.sampled_from(['x', 'x;', 'ab ( ', ' ; ', 'é', '\n;']))
+    body = (unit * (n // len(unit) + 1))[:n] + '; y'
+    if kind == 'sq':
+        lexeme = ['str', R.sq_body(body), False, {'region': True}]
+    elif kind == 'dq':
+        lexeme = ['qname', R.dq_body(body), False, {'region': True, 'name': body}]
+    elif kind == 'bt':
+        lexeme = ['qname', R.bt_body(body), False, {'region': True, 'name': body}]
+    elif kind == 'dollar':
+        lexeme = ['str', R.dollar_body(body, draw(st.sampled_from(R.TAGS))), False, {'region': True}]
+    elif kind == 'ml':
+        lexeme = ['comment', R.block_comment(body), True, {'region': True}]
+    else:
+        lexeme = ['comment', R.line_comment(body, '\n'), True, {'region': True}]
+    from gen.grammar import L, kw, W
+    first = W('stmt', [L('kw', 'SELECT', False, lead='SELECT'), L('name', 'a'), lexeme if kind in ('ml', 'sl') else P_(), lexeme if kind not in ('ml', 'sl') else L('name', 'b'),
+                       kw('FROM', clause=True), L('name', 't')], type='SELECT')
+    second = W('stmt', [L('kw', 'SELECT', False, lead='SELECT'), L('num', '2')], type='SELECT')
+    lex = first + [list(G.SEMI)] + second + ([list(G.SEMI)] if draw(st.booleans()) else [])
+    return {'lex': G.canonical(lex), 'tail': '', 'lead': ''}
+
+
+def P_():
+    return G.P(',')
+
+
+LEGS = [Leg('long-regions', check=check, strategy=lambda tier: long_region_cases(tier), examples={'quick': 64, 'thorough': 600}),
+        Leg('main', check=check, strategy=_main, examples={'quick': 8000, 'thorough': 200000}),
         Leg('hazard', check=check, strategy=_hazard, examples={'quick': 1500, 'thorough': 30000}, hazard_leg=True)]
